@@ -456,6 +456,16 @@ def _plist_method(I, ref, c, name, args, kw):
         I.raise_('ValueError')
     if name == 'copy':
         return I.ctx.alloc(PList(c.items))
+    if name == 'popleft':
+        if not c.items:
+            I.raise_('IndexError', 'pop from an empty deque')
+        I.ctx.setcell(ref, PList(c.items[1:]))
+        return c.items[0]
+    if name == 'insert' and not is_sym(args[0]):
+        items = list(c.items)
+        items.insert(args[0], args[1])
+        I.ctx.setcell(ref, PList(items))
+        return None
     raise Undecided('list.%s' % name)
 
 
@@ -489,6 +499,8 @@ def _pdict_method(I, ref, c, name, args, kw):
         items = dict(c.items)
         if isinstance(o, PDict):
             items.update(o.items)
+        elif args and hasattr(args[0], 'kw_items'):
+            items.update(args[0].kw_items(I))
         elif args:
             raise Undecided('dict.update(%r)' % (args[0],))
         items.update(kw)
